@@ -151,27 +151,6 @@ def sdaiStringRead (s : IS) : IS × List Byte :=
   let (s', str) := getLiteralStr { s with skipws := false }
   if str.isEmpty then ({ s' with skipws := old }, []) else (s', str)
 
-/-! ### SkipInstance / FindStartOfInstance -/
-
-/-- common shape of both: read characters until `stop`; a quote starts a string that is skipped as a whole;
-NUL is an input error.  `c` is the C variable (stale after a failed extraction). -/
-def scanUntil (stop : Byte) (putbackStop : Bool) : Nat → IS → Byte → Nat → Nat → Out LoopRes
-  | 0, _, _, _, _ => .outOfFuel
-  | fuel + 1, s, c, len, steps =>
-    if !s.good then .ok ⟨s, sevInputError, len, steps⟩ else
-    let (s1, c1) := match s.extract with
-      | (s', some c') => (s', c')
-      | (s', none) => (s', c)
-    if c1 = stop then .ok ⟨if putbackStop then s1.putback c1 else s1, sevNull, len, steps + 1⟩
-    else if c1 = chQuote then
-      let (s2, str) := sdaiStringRead (s1.putback c1)
-      scanUntil stop putbackStop fuel s2 c1 (len + (cstr str).length) (steps + 1)
-    else if c1 = 0 then .ok ⟨s1, sevInputError, len, steps + 1⟩
-    else scanUntil stop putbackStop fuel s1 c1 (len + 1) (steps + 1)
-
-def skipInstance (fuel : Nat) (s : IS) : Out LoopRes := scanUntil chSemi false fuel s 0 0 0
-def findStartOfInstance (fuel : Nat) (s : IS) : Out LoopRes := scanUntil chHash true fuel s 0 0 0
-
 /-! ### ReadComment( istream &, std::string & ) -/
 
 /-- the `while( commentLength <= MAX_COMMENT_LENGTH )` loop: `iters` is the number of iterations the guard admits.
@@ -190,8 +169,9 @@ def commentLoop : Nat → IS → Byte → Nat → Nat → (Option Unit) × IS ×
       else commentLoop iters (s2.putback c2) c2 (len + 1) (steps + 1)
     else commentLoop iters s1 c1 (len + 1) (steps + 1)
 
-/-- `sev` carries the return value: 1 = a comment string is returned, 0 = null pointer -/
-def readComment (iters fuel : Nat) (s : IS) : Out LoopRes :=
+/-- `ReadComment`; `skip` is the `SkipInstance` it falls back to when the comment is longer than the limit.
+`sev` carries the return value: 1 = a comment string is returned, 0 = null pointer -/
+def readCommentWith (skip : IS → Out LoopRes) (iters : Nat) (s : IS) : Out LoopRes :=
   let s := s.ws
   let (s, c) := match s.extract with
     | (s', some c') => (s', c')
@@ -205,12 +185,45 @@ def readComment (iters fuel : Nat) (s : IS) : Out LoopRes :=
       match commentLoop iters s2 c1 0 0 with
       | (some _, s3, _, len, steps) => .ok ⟨s3, 1, len, steps⟩
       | (none, s3, _, len, steps) =>
-        match skipInstance fuel s3 with
+        match skip s3 with
         | .ok r => .ok ⟨r.s, 1, len, steps + r.steps⟩
         | .overflow i c => .overflow i c
         | .outOfFuel => .outOfFuel
     else .ok ⟨s1.putback c1, 0, 0, 0⟩
   else .ok ⟨s.putback c, 0, 0, 0⟩
+
+/-! ### SkipInstance / FindStartOfInstance -/
+
+/-- common shape of both: read characters until `stop`; a quote starts a string that is skipped as a whole;
+NUL is an input error.  `c` is the C variable (stale after a failed extraction).
+`cm`: the `case '/':` of `SkipInstance` (a comment is stepped over; regenerated flag), `iters` the comment limit. -/
+def scanUntil (stop : Byte) (putbackStop cm : Bool) (iters : Nat) : Nat → IS → Byte → Nat → Nat → Out LoopRes
+  | 0, _, _, _, _ => .outOfFuel
+  | fuel + 1, s, c, len, steps =>
+    if !s.good then .ok ⟨s, sevInputError, len, steps⟩ else
+    let (s1, c1) := match s.extract with
+      | (s', some c') => (s', c')
+      | (s', none) => (s', c)
+    if c1 = stop then .ok ⟨if putbackStop then s1.putback c1 else s1, sevNull, len, steps + 1⟩
+    else if cm && c1 = chSlash then
+      let (s2, p) := s1.peek
+      if p = some chStar then
+        match readCommentWith (fun s' => scanUntil stop putbackStop cm iters fuel s' 0 0 0) iters (s2.putback c1) with
+        | .ok r => scanUntil stop putbackStop cm iters fuel r.s c1 len (steps + 1 + r.steps)
+        | .overflow i c => .overflow i c
+        | .outOfFuel => .outOfFuel
+      else scanUntil stop putbackStop cm iters fuel s2 c1 (len + 1) (steps + 1)
+    else if c1 = chQuote then
+      let (s2, str) := sdaiStringRead (s1.putback c1)
+      scanUntil stop putbackStop cm iters fuel s2 c1 (len + (cstr str).length) (steps + 1)
+    else if c1 = 0 then .ok ⟨s1, sevInputError, len, steps + 1⟩
+    else scanUntil stop putbackStop cm iters fuel s1 c1 (len + 1) (steps + 1)
+
+def skipInstance (cm : Bool) (iters fuel : Nat) (s : IS) : Out LoopRes := scanUntil chSemi false cm iters fuel s 0 0 0
+def findStartOfInstance (fuel : Nat) (s : IS) : Out LoopRes := scanUntil chHash true false 0 fuel s 0 0 0
+
+def readComment (cm : Bool) (iters fuel : Nat) (s : IS) : Out LoopRes :=
+  readCommentWith (skipInstance cm iters fuel) iters s
 
 /-! ### ReadPcd / ReadTokenSeparator -/
 
@@ -224,7 +237,7 @@ def readPcd (s : IS) : IS :=
     else s2
   else s1
 
-def tokSepLoop (iters : Nat) : Nat → IS → Nat → Out LoopRes
+def tokSepLoop (cm : Bool) (iters : Nat) : Nat → IS → Nat → Out LoopRes
   | 0, _, _ => .outOfFuel
   | fuel + 1, s, steps =>
     if s.fail then .ok ⟨s, 0, 0, steps⟩ else
@@ -234,16 +247,16 @@ def tokSepLoop (iters : Nat) : Nat → IS → Nat → Out LoopRes
     | none => .ok ⟨s2, 0, 0, steps + 1⟩
     | some c =>
       if c = chSlash then
-        match readComment iters (fuel + 1) s2 with
-        | .ok r => tokSepLoop iters fuel r.s (steps + 1 + r.steps)
+        match readComment cm iters (fuel + 1) s2 with
+        | .ok r => tokSepLoop cm iters fuel r.s (steps + 1 + r.steps)
         | .overflow i c => .overflow i c
         | .outOfFuel => .outOfFuel
-      else if c = chBackslash then tokSepLoop iters fuel (readPcd s2) (steps + 1)
-      else if c = chNewline then tokSepLoop iters fuel s2.ignore (steps + 1)
+      else if c = chBackslash then tokSepLoop cm iters fuel (readPcd s2) (steps + 1)
+      else if c = chNewline then tokSepLoop cm iters fuel s2.ignore (steps + 1)
       else .ok ⟨s2, 0, 0, steps + 1⟩
 
-def readTokenSeparator (iters fuel : Nat) (s : IS) : Out LoopRes :=
-  if s.eof then .ok ⟨s, 0, 0, 0⟩ else tokSepLoop iters fuel s 0
+def readTokenSeparator (cm : Bool) (iters fuel : Nat) (s : IS) : Out LoopRes :=
+  if s.eof then .ok ⟨s, 0, 0, 0⟩ else tokSepLoop cm iters fuel s 0
 
 /-! ### STEPfile::FindHeaderSection -/
 
@@ -287,13 +300,10 @@ def headerLoop (n : Nat) (ex : ExitCond) : Nat → IS → List Byte → Nat → 
 
 /-- `sev` carries the return value (1 = found).  (`ReadTokenSeparator` first, with the regenerated comment limit
 passed by the caller through `iters`.) -/
-def findHeaderSectionWith (iters n : Nat) (ex : ExitCond) (fuel : Nat) (s : IS) : Out LoopRes :=
-  match readTokenSeparator iters fuel s with
+def findHeaderSectionWith (cm : Bool) (iters n : Nat) (ex : ExitCond) (fuel : Nat) (s : IS) : Out LoopRes :=
+  match readTokenSeparator cm iters fuel s with
   | .ok r => headerLoop n ex fuel r.s [] r.steps
   | o => o
-
-def findHeaderSection (n : Nat) (ex : ExitCond) (fuel : Nat) (s : IS) : Out LoopRes :=
-  findHeaderSectionWith 8193 n ex fuel s
 
 /-! ### the `);` recovery scan of SDAI_Application_instance::STEPread -/
 
@@ -325,23 +335,20 @@ def recoveryScan (fuel : Nat) (s : IS) (c : Byte) : Out LoopRes := recoverOuter 
 
 /-! ### export list `/#1, #2/` of Create/ReadScopeInstances -/
 
-def exportLoop (checks : Bool) (iters : Nat) : Nat → IS → Byte → Nat → Out LoopRes
+def exportLoop (checks cm : Bool) (iters : Nat) : Nat → IS → Byte → Nat → Out LoopRes
   | 0, _, _, _ => .outOfFuel
   | fuel + 1, s, c, steps =>
     if c = chComma && (!checks || s.good) then
-      match readTokenSeparator iters (fuel + 1) s with
+      match readTokenSeparator cm iters (fuel + 1) s with
       | .ok r1 =>
         let (s2, _) := r1.s.get
         let s3 := s2.extractInt
-        match readTokenSeparator iters (fuel + 1) s3 with
+        match readTokenSeparator cm iters (fuel + 1) s3 with
         | .ok r2 =>
           let (s4, c4) := match r2.s.get with | (s', some c') => (s', c') | (s', none) => (s', c)
-          exportLoop checks iters fuel s4 c4 (steps + 1 + r1.steps + r2.steps)
+          exportLoop checks cm iters fuel s4 c4 (steps + 1 + r1.steps + r2.steps)
         | o => o
       | o => o
     else .ok ⟨s, 0, 0, steps⟩
-
-/-- the stream is positioned after the opening `/`; `c = ','` as the code sets it -/
-def exportList (checks : Bool) (fuel : Nat) (s : IS) : Out LoopRes := exportLoop checks 8193 fuel s chComma 0
 
 end StepModel.P21Safe
